@@ -128,8 +128,20 @@ func zzC10Mgr(pre int) {
 	if !w.compare() {
 		return
 	}
-	// ... and still opens with its passphrase: lock and unlock again
+	// ... and still opens with its passphrase - first while still unlocked
+	// (Unlock then compares with a salted hash kept in memory), where a
+	// passphrase that was never installed must be refused, then from locked
 	if !w.mgr.WatchOnly() {
+		if !w.mgr.IsLocked() {
+			var e1, e2 error
+			zzMust(w.view(func(ns walletdb.ReadBucket) error {
+				e1 = w.mgr.Unlock(ns, zzPrvPass)
+				e2 = w.mgr.Unlock(ns, []byte("new-pass"))
+				return nil
+			}))
+			verifrt.Assert(e1 == nil, "c10-mgr-passphrase-still-accepted-while-unlocked-after-the-rolled-back-operation")
+			verifrt.Assert(e2 != nil, "c10-mgr-never-installed-passphrase-refused-after-the-rolled-back-operation")
+		}
 		if !w.mgr.IsLocked() {
 			zzMust(w.mgr.Lock())
 		}
